@@ -1419,6 +1419,10 @@ def c15_histories(tier, seed):
     for order in (['C/C=C/C', 'C/C=C\\C', 'CC=CC'], ['CC=CC', 'C/C=C\\C', 'C/C=C/C']):
         scripts.append([{'op': 'load', 'name': 'BensonGA'}] + [{'op': 'decompose', 'name': 'BensonGA', 'smi': x} for x in order]
                        + [{'op': 'estimate', 'name': 'BensonGA', 'what': 'get_HoRT', 'se': None, 'T': 400.0}] * 2)
+    # known finding K1, every run: the estimate of an EARLIER decomposition asked for the entropy relative to the elements after the library
+    # decomposed another molecule
+    scripts.append([{'op': 'load', 'name': 'BensonGA'}, {'op': 'decompose', 'name': 'BensonGA', 'smi': 'CCO'}, {'op': 'decompose', 'name': 'BensonGA', 'smi': 'CC'},
+                    {'op': 'estimate', 'name': 'BensonGA', 'smi': 'CCO', 'what': 'get_SoR', 'se': True, 'T': 400.0}])
     cur = {'script': None, 'step': 0}
 
     def pick(field, options):
@@ -1462,7 +1466,9 @@ def c15_histories(tier, seed):
                 if got != want and len(viol) < 10:
                     viol.append({'id': 'h%d-s%d' % (h, step), 'input': {'history': trace[:]}, 'observed': got, 'expected': want})
             elif op == 'estimate' and any(x[0] == name for x in decomp):
-                nm, smi, d = rnd.choice([x for x in decomp if x[0] == name])
+                cands = [x for x in decomp if x[0] == name]
+                want_smi = cur['script'][cur['step']].get('smi') if cur['script'] is not None else None
+                nm, smi, d = next((x for x in cands if x[1] == want_smi), None) or rnd.choice(cands)
                 what = pick('what', ['get_HoRT', 'get_SoR', 'get_CpoR', 'get_SoR'])
                 se = pick('se', [None, True]) if what == 'get_SoR' else None
                 T = pick('T', [300.0, 400.0, 500.0])
@@ -1537,9 +1543,10 @@ def c11_algebra(tier, seed):
             v = rnd.choice([0, 0.0, 2, 1e-9, -3.5])
             return ('num', v), v, (float(v), tuple(F(0) for _ in range(7)))
         nm = rnd.choice(list(base))
-        k = rnd.choice([1.0, 2.0, 0.5, -3.0, 0.0])
+        import numpy as np
+        k = rnd.choice([1.0, 2.0, 0.5, -3.0, 0.0, 3, np.float64(1.5)])      # (numpy integers / float32 bring numpy's own arithmetic rules: they are exercised in the array cases above)
         q = k * eval_qty('1 ' + nm)
-        return ('qty', k, nm), q, (k * base[nm][0], tuple(F(e) for e in base[nm][1]))
+        return ('qty', repr(k), nm), q, (float(k) * base[nm][0], tuple(F(e) for e in base[nm][1]))
 
     def build(depth):
         """-> (description, real value, model (mag, exps))"""
@@ -1570,6 +1577,48 @@ def c11_algebra(tier, seed):
             return float(r.value), tuple(F(float(e)).limit_denominator(1000) for e in r.units.exps)
         return float(r), tuple(F(0) for _ in range(7))
     viol, n, distinct, samples = [], 0, 0, []
+    # array quantities: elements of integer arrays, in-place operators (numpy's own in-place operators know nothing about units)
+    import numpy as np
+    from pgradd.Units.qty import ArrayQuantity
+    with real.quiet():
+        ai = ArrayQuantity([1, 2], units='m')
+        for nm_, f, want in (('ai[0] + ai[1]', lambda: (ai[0] + ai[1]).value, 3), ('-ai[0]', lambda: (-ai[0]).value, -1), ('abs(-ai[1])', lambda: abs(-ai[1]).value, 2),
+                             ('ai[0] < ai[1]', lambda: bool(ai[0] < ai[1]), True), ('(ai[0] * ai[1]).units', lambda: [float(e) for e in (ai[0] * ai[1]).units.exps][:1], [2.0])):
+            n += 1
+            got = real.outcome(f)
+            if got != ('ok', want):
+                viol.append({'id': 'int-array-element-%s' % nm_, 'input': "ai = ArrayQuantity([1, 2], units='m'); " + nm_, 'observed': str(got), 'expected': want})
+
+        def inplace(op, mk_other):
+            a = np.array([1.0, 2.0]) * eval_qty('1 m')
+            o = mk_other()
+            if op == '+=':
+                a += o
+            elif op == '-=':
+                a -= o
+            elif op == '*=':
+                a *= o
+            elif op == '/=':
+                a /= o
+            else:
+                a **= o
+            return a
+        sec = lambda: np.array([1.0, 2.0]) * eval_qty('1 s')
+        met = lambda: np.array([3.0, 4.0]) * eval_qty('1 m')
+        for op, other, want in (('+=', sec, 'UnitsError'), ('-=', sec, 'UnitsError'), ('+=', lambda: 1, 'UnitsError'), ('+=', met, ([4.0, 6.0], [1, 0, 0])), ('-=', met, ([-2.0, -2.0], [1, 0, 0])),
+                                ('*=', sec, ([1.0, 4.0], [1, 0, 1])), ('/=', met, ([1 / 3.0, 0.5], [0, 0, 0])), ('**=', lambda: 2, ([1.0, 4.0], [2, 0, 0]))):
+            n += 1
+            try:
+                r = inplace(op, other)
+                got = ([float(x) for x in np.asarray(r)], [int(e) for e in getattr(r, '_units').exps[:3]] if hasattr(r, '_units') else [0, 0, 0])
+            except UnitsError:
+                got = 'UnitsError'
+            except Exception as e:    # noqa
+                got = type(e).__name__
+            good = got == want if isinstance(want, str) else (isinstance(got, tuple) and got[1] == want[1] and all(abs(x - y) < 1e-12 for x, y in zip(got[0], want[0])))
+            if not good:
+                viol.append({'id': 'array-inplace-%s-%s' % (op, getattr(other, '__name__', 'x')), 'input': "a = np.array([1., 2.]) * metre; a %s <%s>" % (op, 'seconds' if other is sec else 'metres' if other is met else other()),
+                             'observed': str(got), 'expected': str(want)})
     N = 400 if tier == 'quick' else 4000
     with real.quiet():
         for it in range(N):
